@@ -14,9 +14,9 @@ use std::str::FromStr;
 pub struct C20Prop;
 pub static C20: C20Prop = C20Prop;
 
-const CHARS: [char; 26] = [
+const CHARS: [char; 34] = [
     'a', '"', '\\', '\0', '\u{1}', '\u{7f}', '\u{80}', '\u{9f}', '7', '0', '\n', '\t', '\r', 'é', '\u{301}', '😀', '\'',
-    '{', '}', 'u', 'x', ' ', '\u{8}', '\u{c}', '/', '\u{feff}',
+    '{', '}', 'u', 'x', ' ', '\u{8}', '\u{c}', '/', '\u{feff}', '\u{fffff}', '\u{100000}', '\u{10ffff}', '\u{ffff}', '\u{10000}', '\u{7f}', '\u{1}', '\u{1f}',
 ];
 
 fn gen_string(tape: &mut Tape) -> String {
